@@ -165,6 +165,8 @@ class Ctx:
             return True, path
         if p.returncode == 0:
             return False, path
+        if p.returncode == 2:
+            return "inconclusive", path
         self.notes.append(f"replay {path} broken: {(p.stdout + p.stderr)[-500:]}")
         return None, path
 
@@ -258,7 +260,9 @@ class Ctx:
             ob.detail["exhaustive_replay"] = {"path": path, "reproduced": ok}
             if ok is True:
                 ob.verdict = "counterexample"
-                self.violations.append({"what": f"{j.ident}: no witness exists within the bound ({j.note})", "replay": path})
+                self.violations.append({"what": f"{j.ident}: no witness exists and the search was complete ({j.note})", "replay": path})
+            elif ok == "inconclusive":
+                ob.verdict = "not_confirmed"      # no witness within the bound, but longer paths exist: nothing can be concluded
             else:
                 ob.verdict = "error"
                 self.harness_errors.append(f"{j.ident}: solver found no witness but the native enumeration disagrees ({ok})")
